@@ -3,6 +3,7 @@ CONSTANTS Vars <- VarsXYZ
  Kinds <- KindsC18
  LitIdx <- LitsC18
  Imports <- Both
+ Configs <- ConfigsNow
  Shape = "free"
  Emit = TRUE
 SPECIFICATION Spec
